@@ -357,3 +357,347 @@ def check_sites(ctx, rule, sites, audit_scope, entry_desc, cg=None, entries=None
     ctx.stats[rule + "/discharged"] = n_discharged
     ctx.stats[rule + "/audited"] = n_audited
     return n_viol
+
+
+# ------------------------------------------------------------------------------------------
+# more discharges
+
+INT_BITS = {"u8": 8, "i8": 8, "u16": 16, "i16": 16, "u32": 32, "i32": 32, "u64": 64, "i64": 64,
+            "usize": 64, "isize": 64, "u128": 128, "i128": 128}
+
+
+def operand_ty(body, op):
+    k = op_const(op)
+    if k is not None:
+        return body.prog.types[k["ty"]]
+    pl = op_place(op)
+    if pl is None:
+        return None
+    return body.place_ty(pl)
+
+
+def discharge_const_shift(site):
+    if not (site.kind.startswith("assert:Overflow:Shr") or site.kind.startswith("assert:Overflow:Shl")):
+        return None
+    ops = site.term["ops"]
+    if len(ops) != 2:
+        return None
+    k = op_const(ops[1])
+    if k is None or k.get("v") is None:
+        return None
+    bits = INT_BITS.get(operand_ty(site.body, ops[0]) or "", 8)
+    if 0 <= k["v"] < bits:
+        return "const-shift: shift amount %d < %d bits" % (k["v"], bits)
+    return None
+
+
+def discharge_size_arith(site):
+    """Overflow(Add|Mul) on usize/u64: in-memory sizes and 64-bit counters do not overflow
+    (DESIGN §3 assumption 4)"""
+    m = re.match(r"assert:Overflow:(Add|Mul)$", site.kind)
+    if not m:
+        return None
+    ops = site.term["ops"]
+    tys = [operand_ty(site.body, o) for o in ops]
+    if all(t in ("usize", "u64", "u128", "i64", "i128") for t in tys if t) and any(tys):
+        return "size-arith: %s on %s (64-bit sizes/counters do not overflow, assumption 4)" % (m.group(1), tys[0])
+    return None
+
+
+GETTER_NEED = {"get_u8": 1, "get_i8": 1, "get_u16": 2, "get_u32": 4, "get_u64": 8, "get_u128": 16}
+LEN_CALL = re.compile(r"::(len|remaining)$")
+
+
+def _len_call_on(body, op, rkey):
+    """True if operand is (a copy of) the result of a len()/remaining() call on receiver place rkey"""
+    l = op_local(op)
+    hops = 0
+    while l is not None and hops < 6:
+        d = single_def(body, l)
+        if not d:
+            return False
+        if d[2] == "call":
+            t = d[3]
+            if LEN_CALL.search(callee_path(t)):
+                rp = receiver_place(body, t)
+                return rp is not None and place_key(rp) == rkey
+            return False
+        if d[2] == "assign" and d[3]["rv"]["k"] == "use":
+            l = op_local(d[3]["rv"]["a"])
+            hops += 1
+            continue
+        return False
+    return False
+
+
+def _mutated_between(body, guard_target, site_bb, rkey):
+    """is the receiver place mutably borrowed by a call on some path guard_target ->* site_bb
+    (excluding the site's own call)?"""
+    fwd = reachable(body, (guard_target,))
+    if site_bb not in fwd:
+        return True
+    # blocks that can reach site_bb
+    preds = body.preds()
+    back = {site_bb}
+    work = [site_bb]
+    while work:
+        b = work.pop()
+        for p in preds[b]:
+            if p not in back:
+                back.add(p)
+                work.append(p)
+    between = (fwd & back)
+    for b in between:
+        if b == site_bb:
+            continue
+        t = body.blocks[b]["t"]
+        if t["k"] != "call":
+            continue
+        for i, a in enumerate(t["args"]):
+            l = op_local(a)
+            if l is None:
+                continue
+            d = single_def(body, l)
+            if d and d[2] == "assign" and d[3]["rv"]["k"] == "ref" and d[3]["rv"]["bk"] == "mut":
+                if place_key(d[3]["rv"]["pl"]) == rkey:
+                    return True
+    return False
+
+
+def discharge_guarded_getter(site):
+    """Buf::get_uN / advance(n) / split_to(n) on x dominated by the edge of a length test on the
+    same place that implies enough bytes, with no intervening mutable use of x"""
+    if site.kind != "ext":
+        return None
+    name = site.callee.rsplit("::", 1)[-1]
+    if name not in GETTER_NEED and name not in ("advance", "split_to", "copy_to_bytes", "split_off"):
+        return None
+    body = site.body
+    t = site.term
+    rp = receiver_place(body, t)
+    if rp is None:
+        return None
+    rkey = place_key(rp)
+    need_const = GETTER_NEED.get(name)
+    need_op = t["args"][1] if need_const is None and len(t["args"]) > 1 else None
+    if need_const is None and need_op is not None:
+        k = op_const(need_op)
+        if k is not None and k.get("v") is not None:
+            need_const = k["v"]
+    dom = dominators(body)
+    if site.bb not in dom:
+        return None
+    for d in sorted(dom[site.bb], reverse=True):
+        bt = body.blocks[d]["t"]
+        if bt["k"] != "switch":
+            continue
+        l = op_local(bt["on"])
+        if l is None:
+            continue
+        zero_t = None
+        for val, tgt in bt["targets"]:
+            if val == 0:
+                zero_t = tgt
+        true_t = bt["otherwise"]
+        cands = []   # (edge target, description)
+        c = _cmp_defs(body, l)
+        if c:
+            op, x, y, _ = c
+            kx, ky = op_const(x), op_const(y)
+            if _len_call_on(body, x, rkey):
+                # len OP y
+                if ky is not None and ky.get("v") is not None and need_const is not None:
+                    K = ky["v"]
+                    if op == "Lt" and K >= need_const and zero_t is not None:
+                        cands.append((zero_t, "len >= %d" % K))
+                    if op == "Ge" and K >= need_const:
+                        cands.append((true_t, "len >= %d" % K))
+                    if op == "Gt" and K + 1 >= need_const:
+                        cands.append((true_t, "len > %d" % K))
+                    if op == "Le" and K + 1 >= need_const and zero_t is not None:
+                        cands.append((zero_t, "len > %d" % K))
+                    if op == "Eq" and K >= need_const:
+                        cands.append((true_t, "len == %d" % K))
+                if need_op is not None and same_operand(body, y, need_op):
+                    if op == "Lt" and zero_t is not None:
+                        cands.append((zero_t, "len >= n"))
+                    if op == "Ge":
+                        cands.append((true_t, "len >= n"))
+            if _len_call_on(body, y, rkey):
+                # x OP len
+                if need_op is not None and same_operand(body, x, need_op):
+                    if op == "Gt" and zero_t is not None:
+                        cands.append((zero_t, "n <= len"))
+                    if op == "Le":
+                        cands.append((true_t, "n <= len"))
+                if kx is not None and kx.get("v") is not None and need_const is not None:
+                    K = kx["v"]
+                    if op == "Gt" and K >= need_const and zero_t is not None:
+                        cands.append((zero_t, "%d <= len" % K))
+                    if op == "Le" and K >= need_const:
+                        cands.append((true_t, "%d <= len" % K))
+        else:
+            dd = single_def(body, l)
+            if dd and dd[2] == "call" and re.search(r"::is_empty$", callee_path(dd[3])) and need_const == 1:
+                rp2 = receiver_place(body, dd[3])
+                if rp2 is not None and place_key(rp2) == rkey and zero_t is not None:
+                    cands.append((zero_t, "!is_empty"))
+        for tgt, desc in cands:
+            if tgt in dom[site.bb] and _edge_dominates(body, d, tgt, site.bb):
+                if not _mutated_between(body, tgt, site.bb, rkey):
+                    return "guarded-getter: %s established at %s dominates the call, receiver not mutated in between" % (desc, body.loc(bt.get("sp")))
+    return None
+
+
+def discharge_frame_header(site):
+    """advance(n)/split_to(n) where n is FixedHeader.fixed_header_len / frame_length() of a header
+    (premise: the buffer is the frame split off for that header, R-C05-bound), or the byte count
+    returned by a successful `length()` over the same buffer"""
+    if site.kind != "ext":
+        return None
+    name = site.callee.rsplit("::", 1)[-1]
+    if name not in ("advance", "split_to"):
+        return None
+    from .core import provenance, flatten_src
+    body = site.body
+    t = site.term
+    if len(t["args"]) < 2:
+        return None
+    srcs = flatten_src(provenance(body, t["args"][1], through_calls=[r"ops::Try>::branch$"]))
+    if not srcs:
+        return None
+    ok = []
+    for s_ in srcs:
+        if s_.kind in ("param", "field") and getattr(s_, "fields", None) and s_.fields[-1] == "fixed_header_len":
+            ok.append("FixedHeader.fixed_header_len")
+        elif s_.kind == "call" and re.search(r"FixedHeader::frame_length$", s_.path):
+            ok.append("FixedHeader::frame_length()")
+        elif s_.kind == "call" and re.search(r"ops::Try>::branch$", s_.path):
+            continue
+        elif s_.kind == "call" and re.search(r"(^|::)length(_in_frame)?$", s_.path) and s_.term["fn"].get("ws"):
+            # the varint length prefix just parsed from the same buffer
+            rp = receiver_place(body, t)
+            inner = flatten_src(provenance(body, s_.term["args"][0], through_calls=[r"::iter$", r"Deref>::deref$", r"::as_ref$"]))
+            same = False
+            for i_ in inner:
+                if i_.kind == "param" and rp is not None and rp["l"] == i_.l:
+                    same = True
+                if i_.kind == "call":
+                    continue
+            # compare on the root local of the receiver
+            if not same and rp is not None:
+                root = rp["l"]
+                for i_ in inner:
+                    if getattr(i_, "l", None) == root:
+                        same = True
+            if same:
+                ok.append("len_len of successful length() on the same buffer")
+            else:
+                return None
+        else:
+            return None
+    if ok:
+        return "frame-header: argument is " + " / ".join(sorted(set(ok)))
+    return None
+
+
+def discharge_const_arith(site):
+    """Overflow(op, const, const): evaluated here"""
+    m = re.match(r"assert:Overflow:(Add|Sub|Mul)$", site.kind)
+    if not m:
+        return None
+    ops = site.term["ops"]
+    if len(ops) != 2:
+        return None
+    ka, kb = op_const(ops[0]), op_const(ops[1])
+    if ka is None or kb is None or ka.get("v") is None or kb.get("v") is None:
+        return None
+    ty = operand_ty(site.body, ops[0]) or ""
+    bits = INT_BITS.get(ty)
+    if bits is None:
+        return None
+    a, b = ka["v"], kb["v"]
+    r = {"Add": a + b, "Sub": a - b, "Mul": a * b}[m.group(1)]
+    lo, hi = (-(1 << (bits - 1)), (1 << (bits - 1)) - 1) if ty.startswith("i") else (0, (1 << bits) - 1)
+    if lo <= r <= hi:
+        return "const-arith: %d %s %d fits %s" % (a, m.group(1), b, ty)
+    return None
+
+
+DISCHARGERS.extend([discharge_const_arith, discharge_const_shift, discharge_size_arith, discharge_guarded_getter, discharge_frame_header])
+
+
+# ------------------------------------------------------------------------------------------
+# exhaustive-match discharge (P6) and shape extraction
+
+def _trivial_preds(body, bb, live):
+    """edges (pred, succ) entering bb, looking through blocks that only forward (goto/falseedge
+    with no statements)"""
+    out = []
+    seen = set()
+    work = [bb]
+    while work:
+        b = work.pop()
+        for p in body.preds()[b]:
+            if p not in live or (p, b) in seen:
+                continue
+            seen.add((p, b))
+            pt = body.blocks[p]["t"]
+            if pt["k"] in ("goto", "falseedge") and not [s for s in body.blocks[p]["s"] if "lhs" in s]:
+                work.append(p)
+            else:
+                out.append((p, b))
+    return out
+
+
+def panic_entry_shapes(body, bb):
+    """For a panicking block: the list of (switch_bb, adt, place, missing_variants or None).
+    None means the entering edge is not an `otherwise` edge of a discriminant switch."""
+    live = reachable(body, (0,))
+    sw = {s[0]: s for s in discr_switches(body)}
+    shapes = []
+    for p, b in _trivial_preds(body, bb, live):
+        if p in sw:
+            _, adt, m, otherwise, pl, allv = sw[p]
+            # which edge p -> b ? it must be the otherwise edge (b reached from otherwise target)
+            if otherwise == b and b not in m.values():
+                shapes.append((p, adt, pl, sorted(allv - set(m.keys()))))
+                continue
+            if otherwise == b:
+                shapes.append((p, adt, pl, sorted(allv - set(m.keys()))))
+                continue
+        shapes.append((p, None, None, None))
+    return shapes
+
+
+def discharge_exhaustive(site):
+    if site.kind != "never":
+        return None
+    shapes = panic_entry_shapes(site.body, site.bb)
+    if shapes and all(s[1] is not None and s[3] == [] for s in shapes):
+        return "dead: every edge into the panic is the otherwise edge of a match listing all variants of %s" % ", ".join(sorted({s[1] for s in shapes}))
+    return None
+
+
+DISCHARGERS.append(discharge_exhaustive)
+
+
+def panic_scope(ctx, rule, crate, entry_regexes, scope, desc, extra=()):
+    """run the inventory for everything reachable from the entries; returns (entries, reach, sites)"""
+    prog = ctx.progs[crate]
+    cg = ctx.cg(crate)
+    entries = []
+    for r in entry_regexes:
+        m = [b.id for b in prog.find(r)]
+        if not m:
+            ctx.anchor_missing(rule, "entry point %s not found in %s" % (r, crate))
+        entries.extend(m)
+    reach = cg.reach(entries)
+    sites, cnt = inventory(prog, reach)
+    apply_discharges(sites, extra)
+    check_sites(ctx, rule, sites, scope, desc, cg, entries)
+    ctx.stats["%s/%s/reachable_functions" % (rule, crate)] = len(reach)
+    ctx.stats["%s/%s/ext_calls" % (rule, crate)] = cnt.get("ext-call", 0)
+    for e in entries:
+        ctx.ok(rule, e, "entry point analysed (%d reachable functions)" % len(reach), trivial=True)
+    return entries, reach, sites
